@@ -2132,6 +2132,17 @@ class PathSum(object):
             elif isinstance(x, ast.Attribute) and isinstance(
                     x.ctx, ast.Store):
                 wattrs.add(x.attr)
+            elif isinstance(x, ast.Subscript) and isinstance(
+                    x.ctx, (ast.Store, ast.Del)) and isinstance(
+                        x.value, ast.Name):
+                written.add(x.value.id)     # d[k] = v changes d
+            elif isinstance(x, ast.Call) and isinstance(
+                    x.func, ast.Attribute) and isinstance(
+                        x.func.value, ast.Name) and x.func.attr in (
+                            'append', 'add', 'update', 'extend', 'insert',
+                            'pop', 'remove', 'clear', 'setdefault',
+                            'appendleft', 'popleft', 'discard'):
+                written.add(x.func.value.id)
         if is_for:
             for x in ast.walk(n.target):
                 if isinstance(x, ast.Name):
